@@ -580,6 +580,9 @@ func (bs *blockState) applySpec(c *Contract, display string, args []Val, rts []t
 	if c.Trusted && c.Kind == "func" {
 		ex.trusted["contract of "+display+" is assumed (trusted), body not verified"] = true
 	}
+	if c.Kind == "lib" {
+		ex.trusted["library contract assumed (spec/50_lib.spec): "+display] = true
+	}
 	for _, e := range c.Ensures {
 		if e.Assumed {
 			ex.trusted["assumed clause of "+display+": "+e.Label] = true
